@@ -10,7 +10,32 @@ use refmodel::tables::*;
 use serde_json::{json, Value};
 
 /// `bc.opts.mask` is ignored: the same payload/options are built with each of the 8 forced masks.
+/// Calls of the crate's public (doc-hidden) masking entry point on blank matrices of QR widths, made on this thread
+/// before the builds under test in one case out of four: whatever a caller did with `datamasking::mask` earlier must
+/// not change how later symbols are masked.
+fn foreign_mask_calls(bc: &BuildCase) {
+    let h = bc.hash();
+    if h % 4 != 0 {
+        return;
+    }
+    let mode = bc.effective_mode();
+    let level = bc.effective_level();
+    let Some(v) = bc.opts.version.or_else(|| min_version(level, mode, bc.input.len())) else { return };
+    let _ = crate::engine::catch(|| {
+        for k in 0..8usize {
+            if (h >> (8 + k)) & 1 == 1 {
+                let mut blank = fast_qr::QRCode::default(size(v));
+                fast_qr::datamasking::mask(&mut blank, crate::fq::f_mask(k as u8));
+            }
+        }
+    });
+}
+
 pub fn check(bc: &BuildCase, fam: &str, obs: &mut Obs) -> Result<(), Fail> {
+    foreign_mask_calls(bc);
+    if bc.hash() % 4 == 0 {
+        obs.label("after_foreign_mask_calls");
+    }
     let mut built: Vec<Built> = Vec::new();
     for k in 0..8u8 {
         let mut c = bc.clone();
